@@ -302,6 +302,8 @@ def gen_e2e(rng, search, cores=1, thorough=False, force_reject=False):
         settings = {"total_draws": rng.randint(3, 20)}
     case = {"kind": "e2e", "search": search, "spec": spec, "terms": terms, "cores": cores, "seed": rng.randrange(10 ** 6),
             "settings": settings, "spec_paths": [p for p, _ in leaves(spec["root"])]}
+    if search in ("drawer", "bfgs", "lbfgs") and cores == 1:
+        case["refit"] = True
     if search == "drawer" and (force_reject or rng.random() < 0.5):
         # a region where the fit raises FitException: the initializer must drop those draws
         # without shifting the likelihoods of the remaining ones
@@ -429,6 +431,13 @@ def oracle(c, r):
                     if unhex(res["ll"]) != m:
                         add("best", "result.log_likelihood %r, maximum over result.samples %r" % (unhex(res["ll"]), m))
                     check_instance(res["instance"], "result.instance")
+                rf = obs.get("refit")
+                if rf is not None:
+                    if unhex(rf["ll"]) != m:
+                        add("best", "result of the completed fit has log_likelihood %r, maximum over the samples %r" % (unhex(rf["ll"]), m))
+                    check_instance(rf["instance"], "instance of the completed fit")
+                    if sorted(rf["kw"]) != sorted(samples[obs["best"]]["kw"]):
+                        add("best", "completed fit: stored max_log_likelihood_sample is not the maximising sample")
         if isinstance(obs["param_rows"], list):
             for i, (row, s) in enumerate(zip(obs["param_rows"], samples)):
                 vals = values_of(s["kw"], "sample %d" % i)
@@ -658,6 +667,12 @@ def run(ctx):
             # only the samplers' own documented failures are legitimate, and only at conversion level
             legit = c["kind"] == "conv" and c["search"] in ("emcee", "zeus") and r["exc"] == "ValueError" \
                 and math.floor(unhex(c["state"]["tau"]) / 2.0) == 0
+            degenerate = c["kind"] == "e2e" and c["search"] == "emcee" and any(
+                t in (r.get("msg") or "") for t in ("slice step cannot be zero", "cannot convert float NaN to integer"))
+            if degenerate:
+                # the real chain's autocorrelation time came out < 2 (thin = 0) or NaN: no result is returned at all
+                ctx.hist("outcome", "e2e-emcee-degenerate-autocorr")
+                continue
             if not legit:
                 ctx.oracle["failures"] += 1
                 ctx.failure("oracle", "implementation raised %s: %s" % (r["exc"], r.get("msg")), key,
